@@ -94,11 +94,12 @@ Definition run_routing (i : tree) : tree :=
 
 (* ------------------------------------------------------------------ fn 2: outgoing packets of several channels *)
 
-(* input (ps ((id nr0) ...) (op ...))   op = (0 id typ ((chunk ...) ...)) | (1 id) *)
+(* input (ps ((id nr0) ...) (op ...))   op = (0 id typ ((chunk ...) ...)) | (1 id) | (3 id newsize) *)
 Definition top_of_tree (t : tree) : top :=
   if t_int (t_nth 0 t) =? 0
   then TSend (t_int (t_nth 1 t)) (t_int (t_nth 2 t)) (map (fun p => map t_bytes (t_list p)) (t_list (t_nth 3 t)))
-  else TClose (t_int (t_nth 1 t)).
+  else if t_int (t_nth 0 t) =? 1 then TClose (t_int (t_nth 1 t))
+  else TPackSize (t_int (t_nth 1 t)) (t_int (t_nth 2 t)).
 
 Definition tm_init (chs : list tree) : tmap :=
   map (fun c => (t_int (t_nth 0 c), {| tq := empty_pq; tnr := t_int (t_nth 1 c) |})) chs.
@@ -148,6 +149,7 @@ Fixpoint payloads_of (c : Z) (os : list top) : bytes :=
   | [] => []
   | TSend k _ pkgs :: r => if k =? c then payload_of pkgs ++ payloads_of c r else payloads_of c r
   | TClose k :: r => if k =? c then [] else payloads_of c r
+  | TPackSize _ _ :: r => payloads_of c r
   end.
 
 Definition sp_tx (i o : tree) : bool :=
